@@ -1286,6 +1286,17 @@ EXTERNALS_ATTR = {"datetime.datetime.min": lambda: Rec("datetime.min"), "math.pi
                   "fcntl.LOCK_UN": lambda: 8, "errno.EAGAIN": lambda: 11, "errno.EACCES": lambda: 13}
 
 
+@external("copy.copy")
+def x_copy_copy(I, args, kw, node):
+    """shallow copy of an object of a repository class that does not define __copy__: a NEW object with the same fields
+    (field values shared, as in CPython); anything else is outside the subset"""
+    v = args[0]
+    if isinstance(v, Obj) and not v.cls.find_method("__copy__") and not v.cls.find_method("__reduce__") \
+            and not v.cls.find_method("__getstate__"):
+        return Obj(v.cls, dict(v.fields))
+    raise OutsideSubset("copy.copy of %r" % (v,), node)
+
+
 @external("sys.exc_info")
 def x_exc_info(I, args, kw, node):
     h = getattr(I, "handling", None)
